@@ -18,7 +18,9 @@ TRUSTED = [
     "validate+assign+notify is modelled as one atomic step (sub-statement preemption of set_value is C20's subject); "
     "C12_quiescent is proved for histories without worker-thread changes only (C12_quiescent_partial), its full statement "
     "is refuted by C12_quiescent_fails (finding C12:worker-change-overtaken-by-newer-change)",
-    "no setter/getter callbacks on the characteristics; valid in-range integer values; one characteristic per request",
+    "setter callbacks of three kinds (echo the written value, set a different value, set another characteristic) on "
+    "non-always-null characteristics; no raising callbacks (DESIGN section 9), no getter / service / accessory callbacks; "
+    "valid in-range integer values; one characteristic per request; C12_quiescent_partial is proved without callbacks",
     "address-reuse hypothesis (stated in the theorems): a peer address reconnects only after the loss of its "
     "previous connection was processed",
     "harness: virtual-time loop, fake transports, EVENT/HTTP decoder, generators, oracles in harness/ref/sysev_*.py",
@@ -27,7 +29,7 @@ TRUSTED = [
 
 def scripts_for(ctx: Ctx):
     rng = ctx.rng
-    scripts = list(gen.boundary_c12()) + gen.resub_family() + gen.worker_family()
+    scripts = list(gen.boundary_c12()) + gen.resub_family() + gen.worker_family() + gen.callback_family()
     for _ in range(ctx.n(800, 20000)):
         scripts.append(gen.random_script(rng, 30, "c12"))
     scripts += gen.exhaustive_c12(2 if ctx.quick else 4)
@@ -52,7 +54,7 @@ def run(ctx: Ctx):
 
 
 def search(ctx: Ctx):
-    scripts = list(gen.boundary_c12()) + gen.resub_family() + gen.worker_family() + gen.exhaustive_c12(3) + [gen.random_script(ctx.rng, 30, "c12") for _ in range(4000)]
+    scripts = list(gen.boundary_c12()) + gen.resub_family() + gen.worker_family() + gen.callback_family() + gen.exhaustive_c12(3) + [gen.random_script(ctx.rng, 30, "c12") for _ in range(4000)]
     base.evaluate(ctx, scripts, "C12", compare_model=False)
 
 
